@@ -80,6 +80,12 @@ def run(ctx):
             cov["configs"].append(st)
     finally:
         pool.close()
+    # the promises of Session.tla without bounds (any number of databases, rows and steps): TLAPS proof, re-checked here
+    ok, n, tail = vlib.run_tlapm(ctx, "SessionProof")
+    if not ok and not ctx.violations:
+        raise vlib.Undecided("SessionProof: the proof system did not prove every obligation (model-level problem)\n" + "\n".join(tail))
+    cov["proof"] = dict(module="SessionProof", tool="tlapm", obligations_proved=n,
+                        theorem="Spec => []TypeOK /\\ Isolation /\\ ErrorsChangeNothing /\\ PausesChangeNothing")
     for k in ("use:ok", "use:error", "createdb:error", "restart:restart", "crash:crash", "tick:tick", "show:ok"):
         if not cov["kinds"].get(k):
             raise vlib.Undecided("vacuous: no scenario ended in %s" % k)
